@@ -11,12 +11,30 @@ BUILT = {
    text="Every one of the 133,784,560 seven-card sets is generated (both tiers) and evaluated in ascending, descending, flush-scan-adversarial and seeded shuffled orders against the class of the best of its 21 five-card subsets under an independent classifier; all 5,040 orders for a sample; 2M/20M hand pairs (shared boards, mirrored hole cards for ties) check ==,<,partial_cmp,cmp against poker order. Exhaustive over sets, sampled over orders.",
    note="Trusted: the harness's 5-card classifier (two implementations cross-checked on all 2,598,960 hands; 7,462 classes and per-category counts asserted at start-up). Orders: all 7! only for sampled sets.",
    ref="DESIGN.md section 4 (C01)"),
+ "C02": dict(
+   technique="proptest structured generation + reference enumeration model (multiset equality both ways)",
+   category="exploration",
+   text="Generated (flop, 1-6 ranges) configurations - card-pool ranges with frequent player-player blocking, ranges overlapping the flop, identical ranges, sizes 1..1326 including 255/256/257 and >255 beside narrow ranges - are drained and compared as multisets with an independent enumeration of all legal deals: nothing missing, nothing extra, nothing twice; board layout, hole cards per seat and probability = product of weights are checked per showdown. Sampled; a cost budget bounds the product of range sizes per case.",
+   note="Trusted: the harness's enumeration model (evalmodel.rs). Probability is compared within (n+1) f32 roundings because the statement fixes the value, not the multiplication order. Weights from {0} U [2^-10,1].",
+   ref="DESIGN.md section 4 (C02)"),
+ "C03": dict(
+   technique="proptest structured generation (board archetypes, mirrored hole cards) + reference-class oracle",
+   category="exploration",
+   text="1.7M (quick) / 45M (thorough) generated tables of 1-23 players on category-targeted boards with mirrored and rank-sharing hole cards (two-way, multi-way and everybody-ties patterns each a measured share of cases), plus injected board collisions; winners must be exactly the players whose reference class (best of 21) is the table minimum, winner_len the flagged count, players/cards/probability as given.",
+   note="Trusted: the reference classifier of C01. Hole cards colliding with each other are outside the statement and not generated.",
+   ref="DESIGN.md section 4 (C03)"),
  "C07": dict(
    technique="exhaustive enumerating generator over all C(52,7) sets + directed category-boundary cases, oracle = category of the reference best-of-21 class",
    category="exploration",
    text="All 133,784,560 sets (hence all 4,824 reachable power indexes) plus the strongest and weakest reachable hand of every category are generated; the Debug name of hand_type() must equal the category of the best five-card hand under the independent classifier.",
    note="Trusted: the harness's 5-card classifier (self-checked). The category enum is only reachable through its Debug output.",
    ref="DESIGN.md section 4 (C07)"),
+ "C08": dict(
+   technique="proptest structured generation + child-process execution on a 2 MiB thread in two build profiles (crash/panic/over-production oracle)",
+   category="exploration",
+   text="Generated configurations aimed at the failure modes the statement names (longest blocked runs inside a window, sizes 0/1/255/256/257/511/512/513/1326, empty ranges at any seat, all-blocked ranges, full drains) are drained in a child process on a 2 MiB thread, once in a release and once in a debug-profile build of espada; any panic, signal (stack overflow), over-production, or output with an empty range is a violation.",
+   note="Trusted: the OS reporting the child's death; an infinite silent loop can only hit the watchdog (exit 2). Debug profile = espada at opt-level 0 with overflow checks and debug assertions, dependencies optimised.",
+   ref="DESIGN.md section 4 (C08)"),
  "C13": dict(
    technique="exhaustive enumerating generator + model oracle (round trips, order/numbering model)",
    category="exploration",
